@@ -66,7 +66,7 @@ GROUPS = [['planet_mass', 'planet_radius', 'planet_distance'], ['atm_min_pressur
           ['H2O', 'CH4_surface', 'CH4_top'], ['CH4_P', 'CO2_surface', 'CO2_top'], ['He_H2', 'N2_H2', 'H2O'],
           ['NH3_surface', 'NH3_alpha', 'NH3_beta'], ['NH3_gamma', 'N2_H2', 'planet_radius'],
           ['flat_mix_ratio', 'flat_bottomP', 'flat_topP'], ['lee_mie_radius', 'lee_mie_q', 'lee_mie_mix_ratio'],
-          ['lee_mie_bottomP', 'lee_mie_topP', 'He_H2']]
+          ['lee_mie_bottomP', 'lee_mie_topP', 'He_H2'], ['He_H2', 'H2O', 'CO2_top']]
 TGROUPS = dict(isothermal=[['T', 'planet_mass', 'N2_H2']],
                guillot=[['T_irr', 'kappa_irr', 'kappa_v1'], ['kappa_v2', 'alpha', 'T_int_guillot']],
                npoint=[['T_surface', 'T_top', 'T_point1'], ['T_point2', 'P_point1', 'P_point2'], ['P_surface', 'P_top', 'T_point1']],
@@ -213,7 +213,8 @@ def replay_one(temp, names, init, walk, route_kind, family, ids, style='explicit
     fill2 = omit and 'N2_H2' not in names
     tab = tables(temp, defaults=omit)
     cur = {k: v[0] for k, v in tab.items()}
-    cfg = [init[d] % 3 for d in range(len(names))]
+    # the defaults style starts from the all-defaults object (every argument omitted), where shared defaults live
+    cfg = [0 if omit else init[d] % 3 for d in range(len(names))]
     for d, n in enumerate(names):
         cur[n] = tab[n][cfg[d]]
     if fill2:
@@ -239,9 +240,21 @@ def replay_one(temp, names, init, walk, route_kind, family, ids, style='explicit
         gone = sorted(set(base) - set(r)) + sorted(set(r) - set(base))
         return rd, (0 if (moved or gone) else 1), moved + gone, r
 
+    def second_object():
+        """a model built NOW with every defaultable argument left out must read the documented defaults"""
+        if not omit:
+            return 1
+        c2 = dict(cur)
+        c2.update({k: DEFAULTS[k] for k in DEFAULTS if k in c2})
+        r2 = readings(build(temp, c2, family, True, fill2))
+        wrong = sorted(k for k in DEFAULTS if k in r2 and not same(r2[k], float(DEFAULTS[k])))
+        if wrong and 'moved' not in info:
+            info['moved'] = 'a second model built with default arguments reads %s' % ', '.join('%s=%r (default %r)' % (k, r2[k], DEFAULTS[k]) for k in wrong[:3])
+        return 0 if wrong else 1
+
     events, trail, info = [], [], {}
     rd, oth, moved, r = look()
-    events.append(dict(ev='init', rd=rd, cfg=list(cfg), d=0, v=0, oth=oth, dig=0, fresh=0))
+    events.append(dict(ev='init', rd=rd, cfg=list(cfg), d=0, v=0, oth=oth, dflt=1, dig=0, fresh=0))
     for op, d, v in walk:
         if op == 'set':
             d0 = d - 1
@@ -261,7 +274,7 @@ def replay_one(temp, names, init, walk, route_kind, family, ids, style='explicit
             rd, oth, moved, r = look()
             if moved and 'moved' not in info:
                 info['moved'] = 'after %s: other parameters changed: %s' % (trail[-1], ', '.join('%s %r -> %r' % (k, base.get(k), r.get(k)) for k in moved[:4]))
-            events.append(dict(ev='set', rd=rd, cfg=[], d=d0 + 1, v=v0, oth=oth, dig=0, fresh=0))
+            events.append(dict(ev='set', rd=rd, cfg=[], d=d0 + 1, v=v0, oth=oth, dflt=second_object(), dig=0, fresh=0))
         else:
             a = observe(m)
             b = observe(build(temp, cur, family, omit, fill2))
@@ -271,7 +284,7 @@ def replay_one(temp, names, init, walk, route_kind, family, ids, style='explicit
             trail.append('eval' + ('' if ia == ib else '!'))
             if ia != ib and 'diff' not in info:
                 info['diff'] = 'long-lived %s... vs fresh %s...' % (a[:140], b[:140])
-            events.append(dict(ev='eval', rd=rd, cfg=[], d=0, v=0, oth=oth, dig=ia, fresh=ib))
+            events.append(dict(ev='eval', rd=rd, cfg=[], d=0, v=0, oth=oth, dflt=1, dig=ia, fresh=ib))
     return events, trail, info
 
 
